@@ -148,6 +148,10 @@ pub const ELEMENTARY: &[Entry] = &[
     p("gridshift grids=test.datum, @null", GeoRad),
     p("gridshift grids=5458.gsb, 5458_with_subgrid.gsb", GeoRad),
     p("gridshift grids=100800401.gsb", GeoRad),
+    p("gridshift grids=5458_with_subgrid.gsb", GeoRad),
+    p("gridshift grids=5458_with_subgrid.gsb inv", GeoRad),
+    p("gridshift grids=test_subset.datum, test.datum", GeoRad),
+    p("gridshift grids=5458_with_subgrid.gsb, test.datum", GeoRad),
     p(
         "gridshift grids=@test_subset.datum, @missing.gsb, test.datum",
         GeoRad,
